@@ -485,9 +485,14 @@ func (r *rewriter) run(fname string) error {
 				r.sum.LockSites++
 			}
 		case *ast.GoStmt:
-			r.note("go-statement")
 			if r.locks {
-				r.rewriteGo(n)
+				r.rewriteGo(n) // the goroutine becomes a task of the scheduler
+				r.sum.LockSites++
+			} else if r.chans {
+				// C19: goroutines of the builder package park at every
+				// channel operation and are released by the tape
+			} else {
+				r.note("go-statement")
 			}
 		case *ast.CallExpr:
 			if r.locks {
